@@ -9,7 +9,7 @@
 (* <<"fail", clause>> naming the first clause the observation falsifies.   *)
 (* These operators are the only source of VIOLATION lines.                 *)
 (***************************************************************************)
-EXTENDS Integers, Sequences, FiniteSets, BigNat, Notes, Tempo, FramingP, Lines
+EXTENDS Integers, Sequences, FiniteSets, BigNat, Notes, Tempo, FramingP, Lines, Render, Durations
 
 \* first failing clause of a sequence of <<name, bool>> pairs
 RECURSIVE FirstFail(_)
@@ -454,6 +454,15 @@ C19V(r) ==
     <<"rendering-unchanged", r.render_after = r.render_before>>
   >>)
 
+(***************************** beyond the listed properties (drift only) *****)
+\* X01: str() of every event equals the rendering function of Render.tla
+X01V(r) == FirstFail(<< <<"str-of-event-equals-Render!EventStr", r.str = EventStr(r)>> >>)
+\* X02: the NoteDuration table and note_duration_to_ticks for every duration and resolution
+X02V(r) == FirstFail(<<
+  <<"duration-member-value", r.num * DurationTable[r.name].den = DurationTable[r.name].num * r.den>>,
+  <<"ticks-is-resolution-over-value-rounded-half-even", r.ticks = DurationTicks(r.res, r.name)>>
+>>)
+
 (***************************** dispatch ************************************)
 VerdictOf(p, r) ==
   CASE p = "C02" -> C02V(r)
@@ -461,6 +470,8 @@ VerdictOf(p, r) ==
     [] p = "C04" -> C04V(r)
     [] p = "C05" -> C05V(r)
     [] p = "C08" -> C08V(r)
+    [] p = "X01" -> X01V(r)
+    [] p = "X02" -> X02V(r)
     [] p = "C07" -> C07V(r)
     [] p = "C09" -> C09V(r)
     [] p = "C10" -> C10V(r)
